@@ -13,9 +13,10 @@ pub(crate) fn compress(data: &[u8]) -> Result<Vec<u8>> {
         return Ok(Vec::new());
     }
 
-    // Use ASCII mode with 2KB dictionary as default for MPQ archives
-    // This provides good compression ratio for most data types
-    implode_bytes(data, CompressionMode::ASCII, DictionarySize::Size2K)
+    // Use binary (uncoded-literal) mode with a 2KB dictionary. The exploder used by
+    // `decompress` below does not implement ASCII-mode coded literals and panicked on
+    // this function's own output whenever ASCII mode was used.
+    implode_bytes(data, CompressionMode::Binary, DictionarySize::Size2K)
         .map_err(|e| compression_error("PKWare", e))
 }
 
